@@ -2,6 +2,7 @@ import Driver.C13
 import Driver.C04
 import Driver.C03
 import Driver.C05
+import Driver.C02
 /-!
 Line-protocol driver: one request per line on stdin, one answer per line on stdout.
 Only model files are imported (no proofs, no Mathlib), so this links as a native executable.
@@ -19,6 +20,8 @@ def dispatch (line : String) : String :=
     | "msg" => cmdMsg args
     | "frag" => cmdFrag args
     | "sq" => cmdSq args
+    | "enc" => cmdEnc args
+    | "dec" => cmdDec args
     | _ => "bad-op"
 
 partial def loop (h : IO.FS.Stream) (out : IO.FS.Stream) : IO Unit := do
